@@ -19,6 +19,8 @@ use varpro::statistics::FitStatistics;
 pub enum AnyStats<T: Sc> {
     Spied(FitStatistics<Spy<T>>),
     Raw(FitStatistics<varpro::model::SeparableModel<T>>),
+    /// a *clone* of the statistics of a problem over the Clone-able hand-written model
+    HandClone(FitStatistics<HandModel<T>>),
 }
 
 macro_rules! fwd {
@@ -26,6 +28,7 @@ macro_rules! fwd {
         match $self {
             AnyStats::Spied($s) => $e,
             AnyStats::Raw($s) => $e,
+            AnyStats::HandClone($s) => $e,
         }
     };
 }
@@ -58,12 +61,17 @@ impl<T: Sc> AnyStats<T> {
     pub fn is_raw(&self) -> bool {
         matches!(self, AnyStats::Raw(_))
     }
+    pub fn is_clone(&self) -> bool {
+        matches!(self, AnyStats::HandClone(_))
+    }
 }
 
 pub struct StatFit<T: Sc> {
     pub spec: ProblemSpec,
     /// best fit as reported by the fit result (unweighted model values at the solution)
     pub best_fit: Option<Vec<f64>>,
+    /// set when `stats` is a clone whose accessors differ from the original's
+    pub clone_problem: Option<String>,
     pub stats: AnyStats<T>,
     pub alpha: Vec<f64>,
     /// M×1
@@ -263,7 +271,50 @@ pub fn fit_stats<T: Sc>(spec: &ProblemSpec, cfg: &LmCfg, class: &'static str) ->
                         let cv = fit.linear_coefficients()?;
                         let c = Mat::from_fn(cv.len(), 1, |i, _| cv[i].w());
                         let best_fit = fit.best_fit().map(|b| b.iter().map(|v| v.w()).collect());
-                        Some(Ok(StatFit { spec: spec.clone(), best_fit, stats: AnyStats::Raw(stats), alpha, c, n, m, p, nu: n - m - p, class }))
+                        Some(Ok(StatFit { spec: spec.clone(), best_fit, clone_problem: None, stats: AnyStats::Raw(stats), alpha, c, n, m, p, nu: n - m - p, class }))
+                    }
+                    Err(f) => Some(Err(format!("{:?}", f.minimization_report.termination))),
+                }
+            }};
+        }
+        return if spec.par { go!(new_parallel) } else { go!(new) };
+    }
+    // hand-written models are Clone: in one case out of three the statistics object that is judged
+    // is a clone of the one returned (a clone is a statistics object like any other)
+    if let (ModelKind::Hand(ms), true) = (&spec.model, spec.hash() % 3 == 1) {
+        use crate::sc::{bits_of, dvec};
+        use varpro::solvers::levmar::{LevMarProblemBuilder, LevMarSolver};
+        let model = HandModel::<T>::new(ms, &spec.alpha0);
+        macro_rules! go {
+            ($ctor:ident) => {{
+                let mut b = LevMarProblemBuilder::$ctor(model).observations(dvec::<T>(spec.y.col(0)));
+                if let Some(w) = &spec.w {
+                    b = b.weights(dvec::<T>(w));
+                }
+                if let Some(e) = spec.eps {
+                    b = b.epsilon(T::of(e));
+                }
+                let prob = b.build().ok()?;
+                match LevMarSolver::with_solver(cfg.make::<T>()).fit_with_statistics(prob) {
+                    Ok((fit, stats)) => {
+                        let alpha: Vec<f64> = fit.nonlinear_parameters().iter().map(|v| v.w()).collect();
+                        let cv = fit.linear_coefficients()?;
+                        let c = Mat::from_fn(cv.len(), 1, |i, _| cv[i].w());
+                        let best_fit = fit.best_fit().map(|b| b.iter().map(|v| v.w()).collect());
+                        let copy = stats.clone();
+                        let mut clone_problem = None;
+                        let same = |a: Vec<u64>, b: Vec<u64>, what: &str, cp: &mut Option<String>| {
+                            if a != b && cp.is_none() {
+                                *cp = Some(format!("{what} of a cloned statistics object differs from the original's ({} vs {} elements)", b.len(), a.len()));
+                            }
+                        };
+                        same(bits_of(stats.covariance_matrix()), bits_of(copy.covariance_matrix()), "covariance_matrix", &mut clone_problem);
+                        same(bits_of(&stats.linear_coefficients_variance()), bits_of(&copy.linear_coefficients_variance()), "linear_coefficients_variance", &mut clone_problem);
+                        same(bits_of(&stats.nonlinear_parameters_variance()), bits_of(&copy.nonlinear_parameters_variance()), "nonlinear_parameters_variance", &mut clone_problem);
+                        same(bits_of(&stats.weighted_residuals()), bits_of(&copy.weighted_residuals()), "weighted_residuals", &mut clone_problem);
+                        same(vec![stats.reduced_chi2().bits()], vec![copy.reduced_chi2().bits()], "reduced_chi2", &mut clone_problem);
+                        same(bits_of(&stats.confidence_band_radius(T::of(0.9))), bits_of(&copy.confidence_band_radius(T::of(0.9))), "confidence_band_radius(0.9)", &mut clone_problem);
+                        Some(Ok(StatFit { spec: spec.clone(), best_fit, clone_problem, stats: AnyStats::HandClone(copy), alpha, c, n, m, p, nu: n - m - p, class }))
                     }
                     Err(f) => Some(Err(format!("{:?}", f.minimization_report.termination))),
                 }
@@ -277,7 +328,7 @@ pub fn fit_stats<T: Sc>(spec: &ProblemSpec, cfg: &LmCfg, class: &'static str) ->
             let alpha: Vec<f64> = fit.nonlinear_parameters().iter().map(|v| v.w()).collect();
             let c = widen(&fit.coeffs()?);
             let best_fit = fit.best_fit().map(|b| b.iter().map(|v| v.w()).collect());
-            Some(Ok(StatFit { spec: spec.clone(), best_fit, stats: AnyStats::Spied(stats), alpha, c, n, m, p, nu: n - m - p, class }))
+            Some(Ok(StatFit { spec: spec.clone(), best_fit, clone_problem: None, stats: AnyStats::Spied(stats), alpha, c, n, m, p, nu: n - m - p, class }))
         }
         Err(f) => Some(Err(f.termination())),
     }
